@@ -30,6 +30,8 @@ pub enum Op {
     /// rebuild through a Graph that additionally has duplicate node weights and parallel edges
     /// (from_graph documents: equal weights are merged, the last parallel edge is kept)
     FromGraphWithDuplicates(u16),
+    /// through the `data::Build` trait: 0 add_node, 1 add_edge (refused when present), 2 update_edge
+    BuildCall(u8, u16, u16),
 }
 
 #[derive(Debug, Clone, Serialize, Deserialize)]
@@ -58,6 +60,7 @@ fn op_strategy() -> impl Strategy<Value = Op> {
         2 => Just(Op::GraphRoundTrip),
         1 => Just(Op::CloneReplace),
         2 => s().prop_map(Op::FromGraphWithDuplicates),
+        4 => (0u8..3, s(), s()).prop_map(|(k, a, b)| Op::BuildCall(k, a, b)),
     ]
 }
 
@@ -261,6 +264,37 @@ fn run_with<N: Key, Ty: EdgeType + Clone, S: BuildHasher + Default + Clone>(c: &
                     obs.nontrivial = true;
                 }
             }
+            Op::BuildCall(kind, a, b) => {
+                use petgraph::data::Build;
+                let (a, b) = (k(*a), k(*b));
+                counter += 1;
+                match kind {
+                    0 => {
+                        let r = Build::add_node(&mut g, a);
+                        ck!(r == a, "build-add_node", "{at}: Build::add_node({a:?}) returned {r:?}");
+                        m.nodes.insert(a);
+                    }
+                    1 => {
+                        let present = m.edges.contains_key(&m.key(a, b));
+                        let r = Build::add_edge(&mut g, a, b, counter);
+                        if present {
+                            ck!(r.is_none(), "build-add_edge-duplicate", "{at}: Build::add_edge({a:?},{b:?}) on an existing edge returned {r:?} (must refuse and change nothing)");
+                        } else {
+                            ck!(r == Some((a, b)), "build-add_edge", "{at}: Build::add_edge({a:?},{b:?}) returned {r:?}");
+                            m.edges.insert(m.key(a, b), counter);
+                            m.nodes.insert(a);
+                            m.nodes.insert(b);
+                        }
+                    }
+                    _ => {
+                        let r = Build::update_edge(&mut g, a, b, counter);
+                        ck!(r == (a, b), "build-update_edge", "{at}: Build::update_edge({a:?},{b:?}) returned {r:?}");
+                        m.edges.insert(m.key(a, b), counter);
+                        m.nodes.insert(a);
+                        m.nodes.insert(b);
+                    }
+                }
+            }
             Op::RemoveNode(_) | Op::RemoveLiveNode(_) => {
                 let a = match op {
                     Op::RemoveNode(a) => k(*a),
@@ -429,6 +463,7 @@ pub fn fuzz_domain(c: &mut Case) -> bool {
         match o {
             Op::Extend(v) => v.truncate(4),
             Op::SetWeight(_, _, k) => *k %= 3,
+            Op::BuildCall(k, ..) => *k %= 3,
             _ => {}
         }
     }
